@@ -37,6 +37,9 @@ TARGETS = [
     dict(name="tbc_decrypt", file="src/tbc_header/decrypt.rs", fn="decrypt", kind="slice_loop"),
     dict(name="rc4_prga", file="src/rc4.rs", fn="pseudo_random_generation", kind="method",
          fields=[("state", ("arr", "u8")), ("i", "u8"), ("j", "u8")], helpers=["s_i", "s_j"], ret="u8"),
+    dict(name="rc4_apply_keystream", file="src/rc4.rs", fn="apply_keystream", kind="method_slice_loop",
+         fields=[("state", ("arr", "u8")), ("i", "u8"), ("j", "u8")],
+         self_calls={"pseudo_random_generation": ("tr_rc4_prga", ["self.state", "self.i", "self.j"])}),
     dict(name="wrath_from_small_array", file="src/wrath_header/mod.rs", fn="from_small_array", kind="function", ret="N * N", structs={"Self": ["size", "opcode"]}),
     dict(name="wrath_from_large_array", file="src/wrath_header/mod.rs", fn="from_large_array", kind="function", ret="N * N", structs={"Self": ["size", "opcode"]},
          free_helpers=[("clear_large_header", "src/wrath_header/decrypt.rs")]),
@@ -158,6 +161,31 @@ def slice_loop(t, src):
         t["name"], "".join("(%s : list N) " % r for r in ro), tuple_type(len(st)), var, tuple_type(len(st)), tuple_of(st), text)
     note = "(* %s fn %s: for %s in %s; read-only %s; carried %s *)" % (t["file"], t["fn"], var, it, " ".join(ro) or "-", " ".join(st))
     return note + "\n" + head
+
+def method_slice_loop(t, src):
+    """fn m(&mut self, data: &mut [u8]) { for x in data { BODY } } over the fields of self"""
+    sig, ret, body = find_fn(src, t["fn"])
+    ps = split_params(sig)
+    if not ps or ps[0][0] != "self" or len(ps) != 2: raise Untranslatable("expected (&mut self, slice)")
+    p = Parser(tokenize(body))
+    p.expect("{"); p.expect("for")
+    var = p.next()[1]; p.expect("in"); it = p.next()[1]
+    blk = p.block(); p.expect("}")
+    if p.peek()[0] != "eof": raise Untranslatable("statements after the loop")
+    pt, mut = param_type(ps[1][1])
+    if ps[1][0] != it or not (isinstance(pt, tuple) and mut): raise Untranslatable("loop does not iterate over the mutable slice parameter")
+    env = {var: ("v_" + var, pt[1])}
+    for f, ty in t["fields"]: env["self." + f] = ("s_" + f, ty)
+    g = Gen(env, dict(CONSTS))
+    g.self_calls = dict(t.get("self_calls", {}))
+    fields = ["s_" + f for f, _ in t["fields"]]
+    def final(tail):
+        if tail is not None: raise Untranslatable("loop body ends in an expression")
+        return "Some ((%s), %s)" % (", ".join(fields), g.env[var][0])
+    text = g.stmts(blk, final)
+    sty = "(" + " * ".join("list N" if isinstance(ty, tuple) else "N" for _, ty in t["fields"]) + ")"
+    head = "Definition tr_%s_step (st : %s) (v_%s : N) : option (%s * N) :=\n  let '(%s) := st in\n  %s." % (t["name"], sty, var, sty, ", ".join(fields), text)
+    return "(* %s fn %s(&mut self, %s): for %s in %s; fields %s *)\n%s" % (t["file"], t["fn"], it, var, it, " ".join(fields), head)
 
 def method(t, src):
     sig, ret, body = find_fn(src, t["fn"])
@@ -316,7 +344,7 @@ def main():
     for t in TARGETS:
         try:
             src = strip_comments(open(os.path.join(REPO, t["file"])).read())
-            out.append({"slice_loop": slice_loop, "method": method, "function": function, "api": api, "formula": formula}[t["kind"]](t, src))
+            out.append({"slice_loop": slice_loop, "method": method, "function": function, "api": api, "formula": formula, "method_slice_loop": method_slice_loop}[t["kind"]](t, src))
         except (Untranslatable, OSError) as e:
             failed.append((t["name"], str(e)))
             out.append("(* %s: NOT TRANSLATED: %s *)" % (t["name"], str(e).replace("*)", "* )")))
